@@ -88,6 +88,16 @@ type C17Case struct {
 	// TimeoutMs: registration and request timeout of this case (0 = the default 200 ms);
 	// shortened in the cases with 16..64 simultaneously pending bad peers.
 	TimeoutMs int `json:"timeout_ms,omitempty"`
+	// The MOMENT the timeouts are set is part of the case. StartTimeoutMs (0 = same as
+	// TimeoutMs): the timeouts in force while the Adaptation is created and started; the
+	// case's own timeout (TimeoutMs) is set after Start() returned, before the first peer
+	// connects. SwitchAfter = k > 0: once the runtime is done with peer k-1 the timeouts are
+	// set to SwitchTimeoutMs, and only then do peers k.. (and the sentinel) connect. Each peer
+	// is held to the timeout in force when its handshake starts (the setters take effect for
+	// later registrations: start() reads the timeout itself).
+	StartTimeoutMs  int `json:"start_timeout_ms,omitempty"`
+	SwitchAfter     int `json:"switch_after,omitempty"`
+	SwitchTimeoutMs int `json:"switch_timeout_ms,omitempty"`
 
 	// sock: <scratch>/e0/../m0/../nri.sock with len(Existing) pre-existing directories
 	// (chmod'ed to the given modes) followed by Missing directories Start has to create,
@@ -102,6 +112,29 @@ type C17Case struct {
 	Opts []string `json:"opts,omitempty"`
 }
 
+func msOr(ms int, d time.Duration) time.Duration {
+	if ms == 0 {
+		return d
+	}
+	return time.Duration(ms) * time.Millisecond
+}
+
+// caseTimeout is the timeout set after Start(); startTimeout the one in force during it.
+func (c C17Case) caseTimeout() time.Duration  { return msOr(c.TimeoutMs, defaultTimeout) }
+func (c C17Case) startTimeout() time.Duration { return msOr(c.StartTimeoutMs, c.caseTimeout()) }
+func (c C17Case) switches() bool {
+	return c.SwitchAfter > 0 && c.SwitchAfter <= len(c.Peers) && c.SwitchTimeoutMs != 0
+}
+
+// peerTimeout is the timeout in force when peer i's handshake starts (i == len(Peers): the
+// sentinel).
+func (c C17Case) peerTimeout(i int) time.Duration {
+	if c.switches() && i >= c.SwitchAfter {
+		return msOr(c.SwitchTimeoutMs, defaultTimeout)
+	}
+	return c.caseTimeout()
+}
+
 // ---------------------------------------------------------------------------------------
 // reference predicates (the oracle's own reading of the statement)
 // ---------------------------------------------------------------------------------------
@@ -111,15 +144,15 @@ var twoDigits = regexp.MustCompile(`\A[0-9][0-9]\z`) // byte-wise ASCII: "a two-
 // validity returns whether the statement allows (and, for the queue to make progress,
 // expects) the peer to become active, and otherwise why not. timingOnly tells that the only
 // reason is lateness, which is the one verdict that depends on the clock.
-func validity(p Peer) (valid bool, why string, timingOnly bool) {
-	valid, why, timingOnly, _ = judgeSpec(p)
+func validity(p Peer, T time.Duration) (valid bool, why string, timingOnly bool) {
+	valid, why, timingOnly, _ = judgeSpec(p, T)
 	return
 }
 
 // isOpen tells that the statement leaves the peer's fate open (see judgeSpec); such a peer
 // counts as a bad one for the time bound of the peers behind it.
-func isOpen(p Peer) bool {
-	_, _, _, open := judgeSpec(p)
+func isOpen(p Peer, T time.Duration) bool {
+	_, _, _, open := judgeSpec(p, T)
 	return open
 }
 
@@ -129,7 +162,8 @@ func isOpen(p Peer) bool {
 // non-empty name and a two-digit index within the registration timeout" is an only-if; the
 // unchanged runtime abandons the connection at the first invalid registration). Such a peer
 // is reported as not valid here and judged leniently by the oracle.
-func judgeSpec(p Peer) (valid bool, why string, timingOnly bool, open bool) {
+// T is the registration timeout in force when the peer's handshake starts.
+func judgeSpec(p Peer, T time.Duration) (valid bool, why string, timingOnly bool, open bool) {
 	var reasons []string
 	if p.Name == "" {
 		reasons = append(reasons, "empty name")
@@ -166,15 +200,15 @@ func judgeSpec(p Peer) (valid bool, why string, timingOnly bool, open bool) {
 	}
 	content := len(reasons)
 	if p.Stall == stallLate {
-		reasons = append(reasons, "registers after the registration timeout")
+		reasons = append(reasons, fmt.Sprintf("registers %v after it was accepted, registration timeout %v", 2*T, T))
 	}
 	if p.Stall == stallMulti && (p.Final == finalValidEarly || p.Final == finalValidLate) {
 		at := time.Duration(len(p.Attempts)*p.GapMs) * time.Millisecond // offset of the valid registration
 		switch {
 		case len(p.Attempts) == 0:
 			// nothing invalid ahead of it: an ordinary timely registration
-		case at >= 2*regTimeout:
-			reasons = append(reasons, fmt.Sprintf("%d invalid registrations %d ms apart, the valid one only %v after it was accepted (registration timeout %v)", len(p.Attempts), p.GapMs, at, regTimeout))
+		case at >= 2*T:
+			reasons = append(reasons, fmt.Sprintf("%d invalid registrations %d ms apart, the valid one only %v after it was accepted (registration timeout %v)", len(p.Attempts), p.GapMs, at, T))
 		case content == 0:
 			// early enough (or too close to the timeout to call): open
 			return false, fmt.Sprintf("%d invalid registrations, then a valid one %v after it was accepted: left open by the statement", len(p.Attempts), at), false, true
@@ -421,7 +455,8 @@ func genMulti(t *rapid.T, p *Peer, label string) {
 	switch p.Final {
 	case finalValidLate:
 		p.GapMs = rapid.SampledFrom([]int{60, 40, 100}).Draw(t, label+"-gap")
-		k = (int(2*regTimeout/time.Millisecond)+p.GapMs-1)/p.GapMs + rapid.IntRange(0, 1).Draw(t, label+"-more")
+		// (for the default timeout; genTimeouts extends the attempts if the peer ends up under a longer one)
+		k = (int(2*defaultTimeout/time.Millisecond)+p.GapMs-1)/p.GapMs + rapid.IntRange(0, 1).Draw(t, label+"-more")
 	case finalValidEarly:
 		p.GapMs = rapid.SampledFrom([]int{20, 40}).Draw(t, label+"-gap")
 		k = rapid.IntRange(1, 80/p.GapMs).Draw(t, label+"-k")
@@ -455,6 +490,7 @@ var kindWeights = []string{"reg", "sock", "reg", "reg", "sock", "reg", "reg", "s
 // serial handling of the unchanged tree (b x timeout) stays below ~3.5 s.
 func genCrowd(t *rapid.T) C17Case {
 	c := C17Case{Kind: "reg", TimeoutMs: 100}
+	c.StartTimeoutMs = rapid.SampledFrom([]int{0, 3000, 0}).Draw(t, "start-timeout")
 	b := rapid.SampledFrom([]int{17, 16, 18, 20, 17, 24, 32, 16}).Draw(t, "pending")
 	for i := 0; i < b; i++ {
 		p := genGoodPeer(t, fmt.Sprintf("crowd%d", i))
@@ -498,7 +534,38 @@ func genC17(t *rapid.T) C17Case {
 		}
 	}
 	c.Events = genEvents(t)
+	genTimeouts(t, &c)
 	return c
+}
+
+// genTimeouts draws WHEN the timeouts are set: the value in force while the Adaptation is
+// created and started (often much larger, sometimes smaller than the case's own), the case's
+// own value set after Start(), and sometimes a further change between two peers.
+func genTimeouts(t *rapid.T, c *C17Case) {
+	c.TimeoutMs = rapid.SampledFrom([]int{0, 0, 150, 0, 300, 0}).Draw(t, "timeout")
+	c.StartTimeoutMs = rapid.SampledFrom([]int{0, 5000, 0, 3000, 50, 2000, 0, 1000, 5000}).Draw(t, "start-timeout")
+	if c.StartTimeoutMs == int(c.caseTimeout()/time.Millisecond) {
+		c.StartTimeoutMs = 0
+	}
+	if rapid.SampledFrom([]bool{false, false, true, false, false, false}).Draw(t, "switch") {
+		c.SwitchAfter = rapid.IntRange(1, len(c.Peers)).Draw(t, "switch-after")
+		c.SwitchTimeoutMs = rapid.SampledFrom([]int{150, 300, 200}).Draw(t, "switch-timeout")
+		if c.SwitchTimeoutMs == int(c.caseTimeout()/time.Millisecond) {
+			c.SwitchTimeoutMs = 250
+		}
+	}
+	// a multi-attempt peer whose valid registration is meant to be late needs k x gap >= 2 x
+	// the timeout in force for it
+	for i := range c.Peers {
+		p := &c.Peers[i]
+		if p.Stall != stallMulti || p.Final != finalValidLate || len(p.Attempts) == 0 {
+			continue
+		}
+		need := int(2 * c.peerTimeout(i) / time.Millisecond)
+		for n := len(p.Attempts); len(p.Attempts)*p.GapMs < need; {
+			p.Attempts = append(p.Attempts, p.Attempts[len(p.Attempts)%n])
+		}
+	}
 }
 
 // ---------------------------------------------------------------------------------------
@@ -532,8 +599,8 @@ func runC17(c C17Case) ev.Outcome {
 				return ev.Outcome{Excluded: "multi-attempt-not-invalid"} // the attempts ahead of the final one are invalid by construction
 			}
 		}
-		if p.Stall == stallMulti && (p.GapMs < 1 || time.Duration(p.GapMs)*time.Millisecond > regTimeout*3/4 || len(p.Attempts) > 40) {
-			return ev.Outcome{Excluded: "multi-gap-out-of-domain"} // gaps stay clearly below the registration timeout
+		if p.Stall == stallMulti && (p.GapMs < 1 || len(p.Attempts) > 40) {
+			return ev.Outcome{Excluded: "multi-out-of-domain"}
 		}
 	}
 	for _, e := range c.Events {
@@ -542,13 +609,17 @@ func runC17(c C17Case) ev.Outcome {
 		}
 	}
 
-	if c.TimeoutMs != 0 && (c.TimeoutMs < 50 || c.TimeoutMs > 500) || len(c.Peers) > 80 {
+	if c.TimeoutMs != 0 && (c.TimeoutMs < 50 || c.TimeoutMs > 500) || len(c.Peers) > 80 ||
+		c.StartTimeoutMs != 0 && (c.StartTimeoutMs < 20 || c.StartTimeoutMs > 10000) ||
+		c.SwitchTimeoutMs != 0 && (c.SwitchTimeoutMs < 50 || c.SwitchTimeoutMs > 500) {
 		return ev.Outcome{Excluded: "reg-out-of-domain"}
 	}
-	if c.TimeoutMs != 0 {
-		setTimeouts(time.Duration(c.TimeoutMs) * time.Millisecond)
-		defer setTimeouts(defaultTimeout)
+	for i, p := range c.Peers {
+		if p.Stall == stallMulti && time.Duration(p.GapMs)*time.Millisecond > c.peerTimeout(i)*3/4 {
+			return ev.Outcome{Excluded: "multi-gap-out-of-domain"} // gaps stay clearly below the registration timeout
+		}
 	}
+	defer setTimeouts(defaultTimeout) // runRegOnce sets the timeouts at the moments the case says
 
 	o := regClasses(c)
 	v := runRegOnce(c)
@@ -616,13 +687,13 @@ func regClasses(c C17Case) ev.Outcome {
 	nInvalidSoFar, openSoFar := 0, 0
 	classes := map[string]bool{}
 	for i, p := range c.Peers {
-		ok, _, _ := validity(p)
+		ok, _, _ := validity(p, c.peerTimeout(i))
 		if p.Stall == stallMulti {
 			classes["stall:multi"] = true
 			classes["multi:"+p.Final] = true
 			classes[fmt.Sprintf("multi:attempts-%s", bucket(len(p.Attempts)))] = true
 		}
-		if isOpen(p) {
+		if isOpen(p, c.peerTimeout(i)) {
 			openSoFar++ // neither certainly invalid nor valid: does not make a case non-trivial
 			continue
 		}
@@ -684,6 +755,20 @@ func regClasses(c C17Case) ev.Outcome {
 	if nInvalidSoFar > firstGood {
 		o.Classes = append(o.Classes, "reg:bad-after-good")
 	}
+	switch t0, t1 := c.startTimeout(), c.caseTimeout(); {
+	case t0 > t1:
+		classes["tmo:lowered-after-start"] = true
+		if t0 >= 3*time.Second {
+			classes["tmo:lowered-after-start-from>=3s"] = true
+		}
+	case t0 < t1:
+		classes["tmo:raised-after-start"] = true
+	default:
+		classes["tmo:set-before-start"] = true
+	}
+	if c.switches() {
+		classes["tmo:switched-between-peers"] = true
+	}
 	var ks []string
 	for k := range classes {
 		ks = append(ks, k)
@@ -721,12 +806,25 @@ type regHistory struct {
 }
 
 func runRegOnce(c C17Case) (v regVerdict) {
+	// The Adaptation is created and started under the start timeout; the case's own timeout
+	// is set after Start() returned and before anybody connects.
+	setTimeouts(c.startTimeout())
 	rt, err := fx.NewRuntime()
+	setTimeouts(c.caseTimeout())
 	if err != nil {
 		return regVerdict{fail: "harness: cannot start an adaptation: " + err.Error()}
 	}
 	specs := append(append([]Peer{}, c.Peers...), Peer{Name: "verif-sentinel", Idx: "99", Mask: 0})
+	tmo := make([]time.Duration, len(specs)) // timeout in force when each peer's handshake starts
+	maxT := time.Duration(0)
+	for i := range specs {
+		tmo[i] = c.peerTimeout(i)
+		if tmo[i] > maxT {
+			maxT = tmo[i]
+		}
+	}
 	var peers []*rawPeer
+	var notes []string
 	defer func() {
 		for _, p := range peers {
 			p.teardown()
@@ -736,31 +834,64 @@ func runRegOnce(c C17Case) (v regVerdict) {
 
 	// Connect in queue order from one goroutine: the kernel queues the connections in this
 	// order and the runtime accepts them one at a time.
-	for i, s := range specs {
-		p, err := newRawPeer(rt.Socket, i, s)
-		if err != nil {
-			return regVerdict{fail: fmt.Sprintf("harness: peer %d cannot connect: %v", i, err)}
-		}
-		peers = append(peers, p)
-	}
 	t0 := time.Now()
-	for i, p := range peers {
-		p.serve(t0)
-		var pred *rawPeer
-		if i > 0 {
-			pred = peers[i-1]
+	since := make([]time.Time, len(specs)) // when each peer connected: its time clause counts from here
+	connect := func(from, to int) string {
+		now := time.Now()
+		for i := from; i < to; i++ {
+			since[i] = now
+			p, err := newRawPeer(rt.Socket, i, specs[i])
+			if err != nil {
+				return fmt.Sprintf("harness: peer %d cannot connect: %v", i, err)
+			}
+			p.timeout = tmo[i]
+			peers = append(peers, p)
 		}
-		go p.script(pred)
+		for i := from; i < to; i++ {
+			peers[i].serve(t0)
+			var pred *rawPeer
+			if i > 0 {
+				pred = peers[i-1]
+			}
+			go peers[i].script(pred)
+		}
+		return ""
+	}
+	first := len(specs)
+	if c.switches() {
+		first = c.SwitchAfter
+	}
+	if msg := connect(0, first); msg != "" {
+		return regVerdict{fail: msg}
+	}
+	if first < len(specs) {
+		// Change the timeouts between two peers: wait until the runtime is visibly done with
+		// peer first-1 (every handshake so far has started, under the old value), switch, and
+		// only then let the remaining peers connect.
+		wait := slack
+		for i := 0; i < first; i++ {
+			wait += 2 * tmo[i]
+		}
+		select {
+		case <-peers[first-1].settledC:
+		case <-time.After(wait):
+			notes = append(notes, fmt.Sprintf("peer %d was not settled after %v; switching the timeouts anyway", first-1, wait))
+		}
+		setTimeouts(msOr(c.SwitchTimeoutMs, defaultTimeout))
+		if msg := connect(first, len(specs)); msg != "" {
+			return regVerdict{fail: msg}
+		}
 	}
 	sentinel := peers[len(peers)-1]
 
-	hist := &regHistory{}
+	hist := &regHistory{Notes: notes}
 	clause := ""
 	finish := func(fail string, timing bool) regVerdict {
 		hist.Peers = hist.Peers[:0]
 		for i, p := range peers {
 			r := p.snapshot()
-			r.Valid, r.Why, _ = validity(specs[i])
+			r.Valid, r.Why, _ = validity(specs[i], tmo[i])
+			r.TimeoutMs = int(tmo[i] / time.Millisecond)
 			r.Sentinel = p == sentinel
 			hist.Peers = append(hist.Peers, r)
 		}
@@ -771,13 +902,14 @@ func runRegOnce(c C17Case) (v regVerdict) {
 	// behind all b invalid peers is active within b x (registration + request timeout) + 2 s.
 	// "Active" = it received a probe event fired through the adaptation.
 	nInvalid := 0
-	for _, s := range c.Peers {
-		if ok, _, _ := validity(s); !ok {
+	bound := slack
+	for i, s := range c.Peers {
+		if ok, _, _ := validity(s, tmo[i]); !ok {
 			nInvalid++
+			bound += 2 * tmo[i] // registration + request timeout in force for that peer
 		}
 	}
-	bound := time.Duration(nInvalid)*(regTimeout+reqTimeout) + slack
-	deadline := t0.Add(bound)
+	deadline := since[len(specs)-1].Add(bound) // counted from the moment the sentinel connected
 	for {
 		if err := rt.Probe(); err != nil {
 			hist.Notes = append(hist.Notes, "probe: "+err.Error())
@@ -812,7 +944,7 @@ func runRegOnce(c C17Case) (v regVerdict) {
 	// violation of anything the statement says (the sentinel is active, so nobody is being
 	// prevented from registering; on the unchanged tree it does not happen): the peer is
 	// judged on what it received so far, and the case is counted.
-	scriptDeadline := time.After(time.Until(deadline) + 2*regTimeout + slack)
+	scriptDeadline := time.After(time.Until(deadline) + 2*maxT + slack)
 	unfinished := false
 	for i, p := range peers {
 		if unfinished {
@@ -855,14 +987,14 @@ func runRegOnce(c C17Case) (v regVerdict) {
 	for i, p := range peers {
 		r := p.snapshot()
 		spec := specs[i]
-		ok, why, timingOnly := validity(spec)
+		ok, why, timingOnly := validity(spec, tmo[i])
 		var got []Call
 		for _, cl := range r.Calls {
 			if cl.Kind == "Event" {
 				got = append(got, cl)
 			}
 		}
-		if isOpen(spec) {
+		if isOpen(spec, tmo[i]) {
 			// The statement leaves it open whether this peer becomes active; if it did, it is
 			// judged like any active plugin (Synchronize once, exactly the events of its mask).
 			if r.NSync == 0 && len(got) == 0 && r.Probes == 0 {
@@ -920,15 +1052,16 @@ func runRegOnce(c C17Case) (v regVerdict) {
 		if r.NSync > 1 {
 			contentFails = append(contentFails, fmt.Sprintf("%s received Synchronize %d times", id, r.NSync))
 		}
-		bad := 0
-		for _, s := range specs[:i] {
-			if ok, _, _ := validity(s); !ok {
+		bad, b := 0, slack
+		for j, s := range specs[:i] {
+			if ok, _, _ := validity(s, tmo[j]); !ok {
 				bad++
+				b += 2 * tmo[j]
 			}
 		}
-		if b := time.Duration(bad)*(regTimeout+reqTimeout) + slack; p.syncAt.Sub(t0) > b {
+		if p.syncAt.Sub(since[i]) > b {
 			note("valid-peer-synchronized-late")
-			timingFails = append(timingFails, fmt.Sprintf("%s behind %d invalid peers was synchronized after %v, bound %v", id, bad, p.syncAt.Sub(t0), b))
+			timingFails = append(timingFails, fmt.Sprintf("%s behind %d invalid peers was synchronized %v after it connected, bound %v", id, bad, p.syncAt.Sub(since[i]), b))
 		}
 		if !subscribed(spec.Mask, int32(api.Event_REMOVE_POD_SANDBOX)) && r.Probes > 0 {
 			contentFails = append(contentFails, fmt.Sprintf("%s received %d RemovePodSandbox probe events outside its mask", id, r.Probes))
